@@ -160,7 +160,25 @@ def rand_dim_transforms(rng, role, other_role=None, rich=True):
         t["prune"] = True
     if rich and rng.random() < 0.1:
         t["name"] = "Dim renamed"
+    if rich and role[0] == "cat" and rng.random() < 0.25:
+        # subtotal insertions (sums and DIFFERENCES) on any categorical dimension of any scenario
+        ids = [c["id"] for c in role[1] if not c.get("missing")]
+        if ids:
+            t["insertions"] = [rand_subtotal(rng, ids, j, p_diff=0.5) for j in range(rng.randint(1, 2))]
     return t
+
+
+def rand_subtotal(rng, ids, j, p_diff=1.0):
+    """a subtotal insertion dict on the category ids `ids`; a difference with probability p_diff"""
+    pos = rng.sample(ids, rng.randint(1, max(1, len(ids) // 2)))
+    d = {"function": "subtotal", "id": j + 1, "name": "sub%d" % j,
+         "anchor": rng.choice(["top", "bottom", rng.choice(ids)]), "args": pos}
+    if rng.random() < p_diff:
+        rest = [c for c in ids if c not in pos] or ids
+        neg = rng.sample(rest, rng.randint(1, min(2, len(rest))))
+        d["name"] = "diff%d" % j
+        d["kwargs"] = {"positive": pos, "negative": neg}
+    return d
 
 
 def rand_transforms(rng, resp, rich=True, p_dim=0.85):
@@ -524,41 +542,67 @@ def w_shared_insertions(rng, k):
 
 
 def w_diff_subtotals(rng, k):
-    """a CAT x CAT slice (or CAT strand) with DIFFERENCE subtotals (kwargs.negative) on rows and / or
-    columns, from the transforms or from the view; usually with a population"""
+    """a CAT x CAT slice, a CAT strand or a CAT_DATE strand (1-D cube) with DIFFERENCE subtotals
+    (kwargs.negative) on rows and / or columns, defined in the transforms or on the variable VIEW;
+    usually with a population, weighted or not"""
+    layout = rng.choice(["slice", "slice", "strand", "strand", "strand", "date-strand"])
     rows = list(range(1, rng.randint(3, 5) + 1))
     cols = list(range(1, rng.randint(2, 4) + 1))
-    resp, rowv, colv = cat_response(rng, rows, cols, n_missing=rng.choice([0, 1]))
 
     def diff(ids, j):
-        pos = rng.sample(ids, rng.randint(1, max(1, len(ids) // 2)))
-        rest = [c for c in ids if c not in pos] or ids
-        neg = rng.sample(rest, rng.randint(1, min(2, len(rest))))
-        return {"function": "subtotal", "id": j + 1, "name": "diff%d" % j,
-                "anchor": rng.choice(["top", "bottom", rng.choice(ids)]), "args": pos,
-                "kwargs": {"positive": pos, "negative": neg}}
+        return rand_subtotal(rng, ids, j, p_diff=1.0)
+
+    def row_insertions():
+        ins = [diff(rows, j) for j in range(rng.randint(1, 2))]
+        if rng.random() < 0.4:
+            ins.append({"function": "subtotal", "id": 7, "name": "plain", "anchor": "top", "args": rows[:2]})
+        return ins
 
     t = {}
-    where = rng.choice(["rows", "columns", "both"])
-    if where in ("rows", "both"):
-        t["rows_dimension"] = {"insertions": [diff(rows, j) for j in range(rng.randint(1, 2))]}
-        if rng.random() < 0.4:
-            t["rows_dimension"]["insertions"].append(
-                {"function": "subtotal", "id": 7, "name": "plain", "anchor": "top", "args": rows[:2]})
-    if where in ("columns", "both"):
-        t["columns_dimension"] = {"insertions": [diff(cols, j) for j in range(rng.randint(1, 2))]}
+    if layout == "slice":
+        resp, rowv, colv = cat_response(rng, rows, cols, n_missing=rng.choice([0, 1]))
+        where = rng.choice(["rows", "columns", "both"])
+        if where in ("rows", "both"):
+            t["rows_dimension"] = {"insertions": row_insertions()}
+        if where in ("columns", "both"):
+            t["columns_dimension"] = {"insertions": [diff(cols, j) for j in range(rng.randint(1, 2))]}
+    else:
+        n_missing = rng.choice([0, 1])
+        rowv = gen.make_cat(rng, "rowv", n_valid=len(rows), n_missing=n_missing, ids=rows + [-1] * n_missing,
+                            missing_anywhere=False, numeric=rng.choice(["all", "partial", None]),
+                            date=(layout == "date-strand"))
+        if rng.random() < 0.35:
+            rowv.view_insertions = row_insertions()          # differences defined on the variable
+            if rng.random() < 0.3:
+                t["rows_dimension"] = {"insertions": row_insertions()}
+        else:
+            t["rows_dimension"] = {"insertions": row_insertions()}
+        sv = gen.Survey([rowv], rng.randint(10, 30), rng)
+        resp = gen.cube_response(sv, ["rowv"])
+    if "rows_dimension" in t and rng.random() < 0.25:
+        # a sort by value reads the sort key's measure before anything else is asked for
+        if layout == "slice":
+            t["rows_dimension"]["order"] = {
+                "type": "opposing_element", "element_id": rng.choice(cols),
+                "measure": rng.choice(["population", "population", "col_percent", "table_percent"]),
+                "direction": rng.choice(["ascending", "descending"])}
+        else:
+            t["rows_dimension"]["order"] = {
+                "type": "univariate_measure",
+                "measure": rng.choice(["population", "population", "table_percent", "count_unweighted"]),
+                "direction": rng.choice(["ascending", "descending"])}
     world = {"responses": [resp], "forms": [rand_form(rng)], "transforms": [t], "objects": [],
-             "scenario": "difference-subtotals"}
+             "scenario": "difference-subtotals:" + layout}
     for _ in range(rng.randint(1, 2)):
         spec = cube_spec(rng, 0, 0)
-        spec["population"] = rng.choice([9000, 1000, 75, None])
+        spec["population"] = rng.choice([9000, 1000, 75, 1000, None])
         world["objects"].append(spec)
     return world
 
 
-SCENARIOS = [(w_single, 36), (w_same_dims, 11), (w_tabbook, 21), (w_numeric_set, 7), (w_augment, 5),
+SCENARIOS = [(w_single, 31), (w_same_dims, 11), (w_tabbook, 21), (w_numeric_set, 7), (w_augment, 5),
              (lambda rng, k: w_numeric_set(rng, k, True), 5), (lambda rng, k: w_augment(rng, k, True), 4),
-             (w_h2, 5), (w_shared_insertions, 5), (w_diff_subtotals, 5)]
+             (w_h2, 5), (w_shared_insertions, 5), (w_diff_subtotals, 10)]
 
 
 def gen_world(rng, k):
@@ -616,10 +660,81 @@ def gen_schedule(rng, world, probes, n_reads):
                 again.append(copy.deepcopy(op))
         rng.shuffle(again)
         sched += again
+    # the end-of-schedule re-read sweep: EVERY public read of every strand the schedule touched (and
+    # of one touched slice / nub / object in a third of the schedules), whatever was read before
+    touched = []
+    for op in history:
+        key = (op[1], json.dumps(op[2]))
+        if key not in touched:
+            touched.append(key)
+    cls_of = {(k, json.dumps(list(t))): c for k in probes for t, c in probes[k]}
+    others = []
+    for key in touched:
+        c = cls_of.get(key)
+        if c == "_Strand":
+            sched += full_sweep(rng, key[0], json.loads(key[1]), c)
+        elif c is not None:
+            others.append((key, c))
+    if others and rng.random() < 0.33:
+        key, c = rng.choice(others)
+        sched += full_sweep(rng, key[0], json.loads(key[1]), c)
     for k in range(n_obj):
         if k not in made:
             sched.append(["new", k])
     return sched
+
+
+# read FAMILIES of a partition (by the words of the property name): a schedule in 'families' mode reads
+# all of one family before any of another one, for a random ORDERED pair of families (so, over the
+# worlds, population before proportions and proportions before population, counts before bases ...)
+FAMILY_WORDS = [("population", ("population",)),
+                ("proportion", ("proportion", "percentage")),
+                ("error", ("std", "moe", "zscore", "pval", "significance", "pairwise")),
+                ("scale", ("scale_", "mean", "median", "sums", "share", "index", "smoothed")),
+                ("base", ("base", "margin", "counts", "count")),
+                ("order", ("order", "labels", "codes", "idxs", "aliases", "fills", "shape", "is_empty"))]
+
+
+def family_of(name):
+    for fam, words in FAMILY_WORDS:
+        if any(w in name for w in words):
+            return fam
+    return "other"
+
+
+def full_sweep(rng, k, target, cls):
+    """every public read of one target, once, in random order"""
+    reads = [["read", k, list(target), n, list(a)] for n, a in E.READS[cls]]
+    rng.shuffle(reads)
+    return reads
+
+
+def gen_families(rng, world, probes):
+    """all reads of family X, then all reads of family Y (X, Y a random ordered pair), then EVERY
+    public read of the target in random order (the re-read sweep)"""
+    n_obj = len(world["objects"])
+    k = rng.randrange(n_obj)
+    parts = [pc for pc in probes[k] if pc[0][0] != "self"]
+    strands = [pc for pc in parts if pc[1] == "_Strand"]
+    pool = strands if strands and rng.random() < 0.6 else parts
+    target, cls = rng.choice(pool) if pool else rng.choice(probes[k])
+    fams = {}
+    for n, a in E.READS[cls]:
+        fams.setdefault(family_of(n), []).append(["read", k, list(target), n, list(a)])
+    names = sorted(fams)
+    x = rng.choice(names)
+    y = rng.choice([f for f in names if f != x] or names)
+    if "population" in fams and "proportion" in fams and rng.random() < 0.3:
+        # the pair of the seeded change C03-4, in either direction
+        x, y = rng.choice([("population", "proportion"), ("proportion", "population")])
+    first, second = copy.deepcopy(fams[x]), copy.deepcopy(fams[y])
+    rng.shuffle(first)
+    rng.shuffle(second)
+    sched = [["new", k]] + first + second + full_sweep(rng, k, target, cls)
+    for j in range(n_obj):
+        if j != k:
+            sched.append(["new", j])
+    return sched, "%s-before-%s" % (x, y), cls
 
 
 def gen_sweep(rng, world, probes):
@@ -1050,11 +1165,40 @@ def forms_oracle(rep, world, k):
 # ------------------------------------------------------------------------------------
 
 
+def world_shapes(world, probes):
+    """distribution keys: stand-alone cubes with difference subtotals (transforms or view) by partition
+    class, with / without a population"""
+    out = set()
+    for k, spec in enumerate(world["objects"]):
+        if spec["kind"] != "cube":
+            continue
+        t = world["transforms"][spec["t"]] if spec.get("t") is not None else {}
+        dims = world["responses"][spec["r"]]["result"].get("dimensions", [])
+        views = [(d.get("references", {}).get("view") or {}).get("transform", {}).get("insertions") for d in dims]
+        has_tins = any("insertions" in (t.get(key) or {}) for key in ("rows_dimension", "columns_dimension"))
+        txt = json.dumps([t.get("rows_dimension"), t.get("columns_dimension")] + ([] if has_tins and not any(views) else views))
+        if '"negative"' not in txt:
+            continue
+        for _t, c in probes[k]:
+            if c in ("_Slice", "_Strand"):
+                out.add("world:%s+difference-subtotal%s" % (
+                    c, "+population" if spec.get("population") is not None else ""))
+    return sorted(out)
+
+
 def check_world(rep, world, rng, n_reads, corr=None, do_forms=False):
     probes = {k: E.probe_targets(world, k) for k in range(len(world["objects"]))}
     if n_reads == "sweep":
         sched = gen_sweep(rng, world, probes)
         rep.dist("schedule=sweep")
+    elif n_reads == "families":
+        sched, pair, fcls = gen_families(rng, world, probes)
+        rep.dist("schedule=families")
+        rep.dist("families:%s" % pair)
+        if fcls == "_Strand":
+            rep.dist("families-on-strand")
+        if pair in ("population-before-proportion", "proportion-before-population"):
+            rep.dist("families:%s:%s" % (pair, fcls))
     else:
         sched = gen_schedule(rng, world, probes, n_reads)
         rep.dist("schedule=random")
@@ -1064,6 +1208,8 @@ def check_world(rep, world, rng, n_reads, corr=None, do_forms=False):
     rep.cov["evaluations"] += n_read_ops
     rep.count_case({"w": world, "s": sched}, len(world["objects"]) > 1 or n_read_ops > 5)
     rep.dist("scenario=" + world["scenario"])
+    for key in world_shapes(world, probes):
+        rep.dist(key)
     for f in set(world["forms"]):
         rep.dist("form=" + f)
     for k in probes:
@@ -1107,7 +1253,7 @@ def run(tier, seed):
     t0 = time.time()
     for k in range(n_worlds):
         world = gen_world(rng, k)
-        n_reads = rng.choice([6, 12, 25, 40, 60, "sweep", "sweep", "sweep"])
+        n_reads = rng.choice([6, 12, 25, 40, 60, "sweep", "sweep", "sweep", "families", "families"])
         check_world(rep, world, rng, n_reads, corr=corr, do_forms=(k % 4 == 0))
     t_hist = time.time() - t0
     rng2 = random.Random(seed + 5)
